@@ -259,17 +259,29 @@ Inductive outcome : Type :=
 Definition finalized_at (i : outer_in) (h : Z) : bool :=
   match fin_h i with Some f => h <=? f | None => false end.
 
-Definition outer_cmp (i : outer_in) : Z * outcome :=
+(** guard of the short-cut "the block next to the fork point on the active chain is finalized":
+    [nextToFork != nullptr && nextToFork->finalized] - as coded it has NO condition on the heights *)
+Definition next_to_fork_final (i : outer_in) : bool :=
+  (fork_h i + 1 <=? tip_h i) && finalized_at i (fork_h i + 1).
+
+(** a plausible-looking but wrong variant (the height condition of the neighbouring short-cut copied over);
+    Score/CmpSym.v refutes the property for it *)
+Definition next_to_fork_final_height (i : outer_in) : bool :=
+  next_to_fork_final i && (cand_h i <=? tip_h i).
+
+Definition outer_cmp_gen (final_guard : outer_in -> bool) (i : outer_in) : Z * outcome :=
   if negb (cand_valid i) then (1, CANDIDATE_INVALID_CHAIN)
   else if cand_is_tip i then (1, CANDIDATE_IS_TIP)
   else if finalized_at i (tip_h i) && (cand_h i <=? tip_h i) then (1, TIP_IS_FINAL)
   else if cand_on_active i then (1, CANDIDATE_PART_OF_ACTIVE_CHAIN)
   else if cand_above_tip i then
     (if apply_ok i then (-1, CANDIDATE_IS_TIP_SUCCESSOR) else (1, CANDIDATE_INVALID_PAYLOADS))
-  else if (fork_h i + 1 <=? tip_h i) && finalized_at i (fork_h i + 1) then (1, TIP_IS_FINAL)
+  else if final_guard i then (1, TIP_IS_FINAL)
   else if negb (fork_h i / o_ki i <? tip_h i / o_ki i) && negb (fork_h i / o_ki i <? cand_h i / o_ki i)
     then (0, BOTH_DONT_CROSS_KEYSTONE_BOUNDARY)
   else if negb (apply_ok i) then (1, CANDIDATE_INVALID_PAYLOADS)
   else if 0 <=? core i then (core i, HIGHER_POP_SCORE)
   else if b_valid_alone i then (core i, HIGHER_POP_SCORE)
   else (1, CANDIDATE_INVALID_INDEPENDENTLY).
+
+Definition outer_cmp : outer_in -> Z * outcome := outer_cmp_gen next_to_fork_final.
